@@ -11,6 +11,8 @@ import numpy as np
 
 PHASE = ["build"]
 CURRENT = {"task": None, "step": 0}
+ALL_SOURCES = []  # every SimSource created in this run (including unpickled copies)
+ALL_FNS = []
 
 
 def set_phase(p):
@@ -194,6 +196,7 @@ class SimSource:
         self.nreq = 0
         self.faults_fired = 0
         self._unpicklable = None if tokenizable else threading.Lock()
+        ALL_SOURCES.append(self)
 
     def __getitem__(self, idx):
         reason = check_bounds(idx, self.shape, self.fancy_ok)
@@ -222,6 +225,13 @@ class SimSource:
 
     def __len__(self):
         return self.shape[0]
+
+    def __array__(self, dtype=None, copy=None):
+        """Whole-source read (what h5py/zarr datasets do on np.asarray)."""
+        held = self.lock.held_by_current() if self.lock is not None else None
+        self.log.append((PHASE[0], CURRENT["task"], "__array__", tuple(self.shape), held))
+        a = np.array(self._a)
+        return a.astype(dtype) if dtype is not None else a
 
     def nonempty_outside_execute(self):
         return [r for r in self.log if r[0] != "execute" and int(np.prod(r[3])) != 0]
@@ -300,8 +310,10 @@ class RecFn:
         self.name = name
         self.__name__ = name
         self.log = []
+        self.stacks = []  # call sites of non-empty calls outside execute (diagnostics only)
         self.tokenizable = tokenizable
         self._l = None if tokenizable else threading.Lock()
+        ALL_FNS.append(self)
 
     def __call__(self, *args, **kwargs):
         shapes = tuple(tuple(np.shape(a)) for a in args if hasattr(a, "shape"))
@@ -316,10 +328,15 @@ class RecFn:
                 if isinstance(v, dict)
             }
         self.log.append((PHASE[0], shapes, info))
+        if PHASE[0] != "execute" and any(len(s_) and int(np.prod(s_)) != 0 for s_ in shapes):
+            import traceback
+
+            self.stacks.append([f"{f.filename.split('/')[-1]}:{f.lineno}:{f.name}" for f in traceback.extract_stack(limit=12)[:-1]])
         return self.fn(*args, **kwargs)
 
     def nonempty_outside_execute(self):
-        return [r for r in self.log if r[0] != "execute" and any(int(np.prod(s)) != 0 for s in r[1])]
+        # a 0-d meta necessarily has one element: only blocks with an extent count
+        return [r for r in self.log if r[0] != "execute" and any(len(s) and int(np.prod(s)) != 0 for s in r[1])]
 
     def __dask_tokenize__(self):
         if not self.tokenizable:
